@@ -46,10 +46,12 @@ type handshake struct {
 	// chunk: the peer's bytes reach the library at most this many per Read (0: whole messages)
 	chunk int
 	// ctx: kind of the context whose Done() fires where the case cancels (see c01.MakeCtx)
-	ctx   byte
-	name  string
-	steps []exchange
-	run   func(ctx context.Context, c net.Conn) (*xmpp.Session, error)
+	ctx byte
+	// errKind: kind of the error value a failing Read / Write returns (c01.ErrKinds, 0 plain)
+	errKind byte
+	name    string
+	steps   []exchange
+	run     func(ctx context.Context, c net.Conn) (*xmpp.Session, error)
 }
 
 // duplex is the library's end of the connection.
@@ -64,6 +66,7 @@ type duplex struct {
 	writes   int
 	failRd   int // index of the Read that fails (-1 none)
 	failWr   int
+	errKind  byte
 	notify   chan struct{}
 	// peer side
 	chunk   int  // at most this many bytes per Read (0: no limit)
@@ -150,7 +153,7 @@ func (d *duplex) Read(p []byte) (int, error) {
 	idx := d.reads
 	d.reads++
 	if idx == d.failRd {
-		return 0, errInjected
+		return 0, c01.InjErr(d.errKind, errInjected)
 	}
 	for len(d.in) == 0 && !d.eof && !d.expired(false) {
 		d.cond.Wait()
@@ -175,7 +178,7 @@ func (d *duplex) Write(p []byte) (int, error) {
 	idx := d.writes
 	d.writes++
 	if idx == d.failWr {
-		return 0, errInjected
+		return 0, c01.InjErr(d.errKind, errInjected)
 	}
 	if d.expired(true) {
 		return 0, os.ErrDeadlineExceeded
@@ -230,6 +233,7 @@ func play(h handshake, budget, failRd, failWr, cancelAt int) hsResult {
 	d := newDuplex()
 	d.failRd, d.failWr = failRd, failWr
 	d.chunk = h.chunk
+	d.errKind = h.errKind
 	ctx, cancel, release := c01.MakeCtx(h.ctx)
 	defer release()
 	d.budget = budget
@@ -642,8 +646,15 @@ func isClean(kind string) bool { return kind == "clean" || kind == "pclean" || k
 // playKind runs handshake h under the fault (kind, n); a suffix `.d`, `.p`, `.n` selects the kind
 // of context whose Done() fires (far deadline + cancel, cancelled parent, near deadline).
 func playKind(h handshake, kind string, n int) hsResult {
-	if i := strings.Index(kind, "."); i >= 0 && i+1 < len(kind) {
-		h.ctx = kind[i+1]
+	if i := strings.Index(kind, "."); i >= 0 {
+		// lower case: kind of context; upper case: kind of the injected error value
+		for _, ch := range []byte(kind[i+1:]) {
+			if ch >= 'A' && ch <= 'Z' {
+				h.errKind = ch
+			} else {
+				h.ctx = ch
+			}
+		}
 		kind = kind[:i]
 	}
 	switch kind {
@@ -715,9 +726,19 @@ func runReal(r *common.Run) {
 		}
 		for k := 0; k < clean.reads; k++ {
 			emit("rd", k, play(h, -1, k, -1, -1))
+			for _, ek := range errKindsFor(r, k) {
+				hk := h
+				hk.errKind = ek
+				emit("rd."+string(ek), k, play(hk, -1, k, -1, -1))
+			}
 		}
 		for k := 0; k < clean.writes; k++ {
 			emit("wr", k, play(h, -1, -1, k, -1))
+			for _, ek := range errKindsFor(r, k) {
+				hk := h
+				hk.errKind = ek
+				emit("wr."+string(ek), k, play(hk, -1, -1, k, -1))
+			}
 		}
 		// a peer whose output arrives byte by byte: every read index is a byte position, so a
 		// failing read hits every position inside every element
@@ -789,5 +810,5 @@ func runReal(r *common.Run) {
 			}
 		}
 	}
-	r.Exhaustive = append(r.Exhaustive, "each with both spellings of the peer's empty elements (<x/> and <x></x>): real SASL PLAIN + bind (initiator TCP, initiator WebSocket, receiver) and component handshakes: every byte prefix of the peer's stream (thorough; every 7th in quick), every failing Read, every failing Write, a byte-by-byte peer with every failing read (= every byte position), cancellation before every peer step (contexts: WithCancel, far deadline + cancel, cancelled parent, near deadline expiring); and over a real net.Pipe: cancellation while blocked in each write (peer stops reading) and in a read before each peer step")
+	r.Exhaustive = append(r.Exhaustive, "each with both spellings of the peer's empty elements (<x/> and <x></x>): real SASL PLAIN + bind (initiator TCP, initiator WebSocket, receiver) and component handshakes: every byte prefix of the peer's stream (thorough; every 7th in quick), every failing Read, every failing Write (each with the kinds of error value of c01.ErrKinds: time-out with a live context, temporary, closed, context / EOF sentinels), a byte-by-byte peer with every failing read (= every byte position), cancellation before every peer step (contexts: WithCancel, far deadline + cancel, cancelled parent, near deadline expiring); and over a real net.Pipe: cancellation while blocked in each write (peer stops reading) and in a read before each peer step")
 }
